@@ -122,7 +122,7 @@ def build(case):
 class C07(Property):
     id = "C07"
     title = "flatten() is compositional and names every leaf by its position"
-    proof_module = "Proofs.C07"
+    proof_module = "Proofs.C07Unique"
     theorems = [
         "Flatland.Flat.Proofs.flatten_compositional",
         "Flatland.Flat.Proofs.flatten_root_compositional",
@@ -132,6 +132,8 @@ class C07(Property):
         "Flatland.Flat.Proofs.childItems_positional",
         "Flatland.Flat.Proofs.keys_are_paths",
         "Flatland.Flat.Proofs.below_joined",
+        "Flatland.Flat.Proofs.joinSep_inj",
+        "Flatland.Flat.Proofs.keys_unique_paths",
     ]
     trusted_base = [
         "scalar text (.u) and compound text are inputs of the flat model (env tables computed from the real classes in isolation; subjects of C04/C18)",
